@@ -54,6 +54,25 @@ def code(chk, tier, d):
                 chunk = vals[off:off + 2000]
                 prog = [dict(asmlib.imm(m, v), form=form) for v in chunk] + [asmlib.imm('LDAC', 0)]
                 cases.append({'id': '%s:%s:%d' % (m, 'u' if form else 's', off), 'prog': prog, 'src': asmlib.src_of(prog)})
+    # the same operands in other lexical surroundings: as the last characters of the file (no newline after the final digit), with a
+    # comment starting right after the last digit, with tabs and several blanks in front, with leading zeros, and after a blank-less `-`
+    ctx = rng.sample(boundary, 60) if tier == "quick" else boundary
+    nctx = 0
+    for m in sorted(asmlib.OPS):
+        for form in (False, True):
+            for v in ctx:
+                prog = [asmlib.imm('LDAC', 1), dict(asmlib.imm(m, v), form=form)]
+                base = asmlib.src_of(prog)
+                l1, l2 = base.split("\n")[:2]
+                mn, lt = l2.split(" ")
+                texts = {'eof': l1 + "\n" + l2, 'eof1': l2, 'comment': l1 + "#c\n" + l2 + "#" + lt + "\n", 'tabs': l1 + "\n\t " + mn + " \t  " + lt + "\t\n",
+                         'zeros': l1 + "\n" + mn + " " + (("-000" + lt[1:]) if lt.startswith("-") else ("000" + lt)) + "\n",
+                         'cr': l1 + "\n" + l2 + "\n\n\n"}
+                for tname, text in texts.items():
+                    pr = prog if tname != 'eof1' else prog[1:]
+                    cases.append({'id': 'ctx:%s:%s:%s:%d' % (tname, m, 'u' if form else 's', v), 'prog': pr, 'src': text})
+                    nctx += 1
+    chk.set("operands_in_other_lexical_surroundings", nctx)
     res = asmlib.run_cases(exe, cases, d, "c04")
     recs, keep = [], []
     nvals = 0
@@ -64,7 +83,7 @@ def code(chk, tier, d):
                           {"case.S": c['src']})
             continue
         rec, note = asmlib.tlc_record(c, r, with_listing=False)
-        recs.append(rec); keep.append(c); nvals += len(c['prog']) - 1
+        recs.append(rec); keep.append(c); nvals += max(1, len(c['prog']) - 1)
     # canary: flip one bit of one image byte in a copy of the first record
     can = json.loads(json.dumps(recs[0])); can['id'] = 'canary'; can['img'][len(can['img']) // 2] ^= 0x01
     recs.append(can)
@@ -74,7 +93,7 @@ def code(chk, tier, d):
     ok = 0
     for c, v in zip(keep, verd[:-1]):
         if v['layout'] == "":
-            ok += len(c['prog']) - 1
+            ok += max(1, len(c['prog']) - 1)
             continue
         m = re.search(r'directive (\d+)', v['layout'])
         idx = int(m.group(1)) - 1 if m else 0
